@@ -21,7 +21,7 @@ ASSUMPTIONS = ["only pairs whose second step applies to the result of the first 
 
 
 def cases(tier):
-    return 700 if tier == "quick" else 30000
+    return 4000 if tier == "quick" else 100000
 
 
 def floors(tier):
